@@ -348,6 +348,9 @@ class Flow:
         return []
 
     def if_(self, s: ast.If, st: State, fn: str):
+        if isinstance(s.test, ast.Constant):
+            self.block(s.body if s.test.value else s.orelse, st, fn)               # the other branch is dead code
+            return
         self.ev(s.test, st, fn)
         outs = []
         for body, truth in ((s.body, True), (s.orelse, False)):
@@ -567,6 +570,8 @@ class Flow:
             vals = [self.ev(e.left, st, fn)] + [self.ev(c, st, fn) for c in e.comparators]
             return None
         if isinstance(e, ast.IfExp):
+            if isinstance(e.test, ast.Constant):
+                return self.ev(e.body if e.test.value else e.orelse, st, fn)      # the other arm is dead code
             self.ev(e.test, st, fn)
             a, b = self.ev(e.body, st, fn), self.ev(e.orelse, st, fn)
             if self.same(a, b):
@@ -643,9 +648,16 @@ class Flow:
             return None
         if base == ARRAY:
             return self.read(e, st, fn)
+        if isinstance(base, Iter):
+            # an element (or a sub-sequence) of a sequence whose elements all have one abstract value
+            self.ev(sl, st, fn) if not isinstance(sl, (ast.Slice, ast.Tuple)) else None
+            return base if isinstance(sl, ast.Slice) else base.elem
         if isinstance(base, Tup):
             if isinstance(sl, ast.Constant) and isinstance(sl.value, int) and -len(base.items) <= sl.value < len(base.items):
                 return base.items[sl.value]
+            whole = [x for x in base.items if is_whole(x)]
+            if whole:
+                return whole[0]
             return DATA if is_data(base) else None
         if is_data(base):
             self.ev(sl, st, fn) if not isinstance(sl, (ast.Slice, ast.Tuple)) else None
@@ -709,6 +721,10 @@ class Flow:
             return Iter(Tup([None, ENTRY]) if name == "items" else (ENTRY if name == "values" else None))
         if recv == ENTRY and name == "get" and e.args and isinstance(e.args[0], ast.Constant):
             return ARRAY if e.args[0].value == "candles" else None
+        if recv == DICT and name == "get":
+            return ENTRY
+        if recv in (DICT, ENTRY) and name == "copy":
+            return recv
         if name in self.interest:
             self.calls.append(Call(e, fn, st.chain, name, args, list(st.facts), list(st.mods), st.in_loop, st.bound))
         if name in STORE_WRITERS and isinstance(f, ast.Attribute):
